@@ -49,8 +49,8 @@ def run(chk):
         s.job("simulation election, 30 steps", "election", G.ALL_KINDS, 30, emit="last", simulate="num=300", rolls=2, timeout=1700)
     else:
         s.job("agreed: tracking, withdrawal, close", "agreed", ["Tracking", "Withdraw", "RealWithdraw", "Close", "Review"], 3,
-              emit="all", limit=700, rolls=0)
-        s.job("duty: registration and reviews", "duty", ["Proposal", "Review", "Reject", "Approp"], 3, emit="all", limit=500, rolls=0)
+              emit="all", limit=400, rolls=0)
+        s.job("duty: registration and reviews", "duty", ["Proposal", "Review", "Reject", "Approp"], 3, emit="all", limit=300, rolls=0)
         s.job("simulation duty, 12 steps", "duty", BUDGET_KINDS, 12, emit="last", simulate="num=40", rolls=1)
     s.run_jobs(parallel=4 if not thorough else 8)
     cap = 500 if thorough else 40
